@@ -139,12 +139,21 @@ class ScriptedSocket(object):
         # recv_into() exists only on the "full" flavour (hasattr() must be false otherwise)
         if name == 'recv_into' and self.__dict__.get('full'):
             return self._recv_into
+        if name == 'sendall' and self.__dict__.get('full'):
+            return self._sendall
         raise AttributeError(name)
 
     def _recv_into(self, buf, nbytes=0, flags=0):
         data = self.recv(nbytes or len(buf))
         buf[:len(data)] = data
         return len(data)
+
+    def _sendall(self, data, flags=0):
+        # what socket.sendall does: keeps sending until done; on a timeout / error an unknown part has gone out
+        data = bytes(data)
+        while data:
+            k = self.send(data)
+            data = data[k:]
 
     def send(self, data):
         if self.send_script:
@@ -327,6 +336,9 @@ def check_send(c, st):
                            for b in c['big']])
         st.count('big_send_cases')
     sock = ScriptedSocket([], clock, c['send_script'])
+    if c.get('full'):
+        sock.full = True        # a real socket object: it has sendall() and recv_into() of its own
+        st.count('send_cases_on_a_socket_with_native_sendall')
     real_time = su.time
     su.time = clock
     ACTIVE_CLOCK[0] = clock
@@ -600,7 +612,7 @@ def gen(r):
               for _ in range(r.randint(0, 12))]
         if r.random() < 0.4:
             ss = [['slow', x, r.choice([0.1, 0.6, 3.0, 6.0])] if isinstance(x, int) and r.random() < 0.5 else x for x in ss]
-        return {'kind': 'send', 'calls': calls, 'send_script': ss, 'timeout': r.choice([5.0, 0.5])}
+        return {'kind': 'send', 'calls': calls, 'send_script': ss, 'timeout': r.choice([5.0, 0.5]), 'full': r.random() < 0.4}
     maxsize = r.choice([32768, 32768, 1000, 100, 10, 9])
     payloads = [rbytes(r, min(maxsize, r.choice([0, 0, 1, 2, 5, 9, 10, 11, 99, 100, 101, 300, 1000])),
                        b',:0123456789ab\n') for _ in range(r.randint(1, 5))]
